@@ -12,7 +12,7 @@ use super::{
     fault::{self, Census, Fault, FaultKind, Out},
 };
 
-fn cases(seed: u64, thorough: bool) -> Vec<Case1> {
+fn cases(seed: u64, thorough: bool, rt: &tokio::runtime::Runtime) -> Vec<Case1> {
     let (i, c) = (false, true);
     let basic: Vec<Rep> = vec![
         Rep { conversion: i, mk: 101, data: 3 },
@@ -32,7 +32,16 @@ fn cases(seed: u64, thorough: bool) -> Vec<Case1> {
     let mut v = vec![Case1 { shards: 1, malicious: true, hv_bits: 8, padding: false, reports: basic.clone(), assign: vec![0; n], seed: seed + 21 }];
     if thorough {
         v.push(Case1 { shards: 1, malicious: true, hv_bits: 8, padding: true, reports: basic.clone(), assign: vec![0; n], seed: seed + 22 });
-        v.push(Case1 { shards: 2, malicious: true, hv_bits: 8, padding: false, reports: basic, assign: (0..n).map(|i| i % 2).collect(), seed: seed + 23 });
+        // two shards: the world seed decides which shard every match key is routed to; a seed is chosen
+        // (deterministically, the same in the parent and in the child processes) for which no shard runs
+        // out of rows - otherwise the honest run ends in the known dry-shard hang of C01
+        for k in 0..40u64 {
+            let c = Case1 { shards: 2, malicious: true, hv_bits: 8, padding: false, reports: basic.clone(), assign: (0..n).map(|i| i % 2).collect(), seed: seed + 23 + 1000 * k };
+            if !c01::some_shard_runs_dry(&c, rt) {
+                v.push(c);
+                break;
+            }
+        }
     }
     v
 }
@@ -150,7 +159,7 @@ fn judge(c: &Case1, f: &Fault, out: &Outputs, changed: u64, want: &[u128]) -> se
 }
 
 fn child_main(rt: &tokio::runtime::Runtime, seed: u64, thorough: bool) {
-    for (ci, c) in cases(seed, thorough).iter().enumerate() {
+    for (ci, c) in cases(seed, thorough, &rt).iter().enumerate() {
         let Some((lo, hi)) = fault::child_range(&format!("query{ci}")) else { return };
         if lo == hi {
             continue;
@@ -185,7 +194,7 @@ fn run() {
         return;
     }
     let mut r = Report::new("C02");
-    for (ci, c) in cases(seed, thorough).iter().enumerate() {
+    for (ci, c) in cases(seed, thorough, &rt).iter().enumerate() {
         let Some((census, honest, faults)) = plan(&rt, c, thorough) else {
             r.machinery(&format!("case {ci}: census not reproducible"));
             continue;
